@@ -30,7 +30,7 @@ func NewComposite(scheds ...core.Schedule) core.Schedule {
 	)
 	for i := len(scheds) - 1; i >= 0; i-- {
 		left[i] = leftAccumulator
-		schedLeft := scheds[i].Left()
+		schedLeft := initialLeft(scheds[i])
 		if schedLeft < 0 {
 			schedLeft = -1
 			unknown = true
@@ -45,6 +45,23 @@ func NewComposite(scheds ...core.Schedule) core.Schedule {
 		scheds:    scheds,
 		leftAfter: left,
 	}
+}
+
+// initialLeft returns Left() of not started schedule without side effects:
+// compositeSchedule.Left() can start nested schedules.
+func initialLeft(sched core.Schedule) int {
+	composite, ok := sched.(*compositeSchedule)
+	if !ok {
+		return sched.Left()
+	}
+	composite.rwMu.RLock()
+	defer composite.rwMu.RUnlock()
+	left := initialLeft(composite.scheds[0])
+	leftAfter := composite.leftAfter[0]
+	if left < 0 || leftAfter < 0 {
+		return -1
+	}
+	return left + leftAfter
 }
 
 type compositeSchedule struct {
